@@ -1002,8 +1002,8 @@ def rewrite_unpack_output(op, arch, nng):
     if op.run_on_npu and op.type == Op.Unpack:
         # Unpack is also referred to as Unstack
         axis = int(op.attrs["axis"])
-        if axis < 0:  # Convert to positive axis
-            axis = len(op.inputs[0].shape) + 1 + axis
+        if axis < 0:  # Convert to positive axis (the axis of an Unpack counts the dimensions of its input)
+            axis = len(op.inputs[0].shape) + axis
         op.type = Op.UnpackReshaped
         desired_output_shape = tens.shape[:axis] + [1] + tens.shape[axis:]
 
